@@ -170,7 +170,68 @@ let exw toks =
         !lresp !lnack (match !c.ex_c_q with Some _ -> 1 | None -> 0) !total
   | _ -> failwith "exw: arguments"
 
+(* exs <maxr> <smid0> <dedup> <step> { | <step> }*
+   replay of the steps observed at the real server on the abstract server of System.v:
+     X:<datagram received> > <datagrams sent>     Exchange.System.ex_srv_rx
+     TS > <datagrams sent by timers>              each one is the response of a pending async entry
+                                                  (ex_srv_fire) or a retransmission (ex_srv_timer)
+   result: ok <steps> | MISMATCH step <i>: model=<..> impl=<..>                              *)
+let parse_dg (s : string) : ex_dg =
+  match split_on ':' s with
+  | ["req"; m; k; st] -> ExReq (zi m, zi k, zi st)
+  | ["ack"; m] -> ExAckE (zi m)
+  | ["rst"; m] -> ExRst (zi m)
+  | ["ackr"; m; k] -> ExAckR (zi m, zi k)
+  | ["conr"; m; k] -> ExConR (zi m, zi k)
+  | ["nonr"; m; k] -> ExNonR (zi m, zi k)
+  | _ -> failwith ("bad datagram " ^ s)
+
+let rec index_of p l i = match l with [] -> None | x :: tl -> if p x then Some i else index_of p tl (i + 1)
+
+let exs toks =
+  match toks with
+  | maxr :: smid0 :: dedup :: rest ->
+      let cf = { ex_cf_maxr = zi maxr; ex_cf_dedup = (dedup <> "0"); ex_cf_quiet = false;
+                 ex_cf_patient = false } in
+      let s = ref (ex_srv_init (zi smid0)) in
+      let steps = split_steps [] [] rest in
+      let show l = if l = [] then "-" else String.concat "," (List.map show_dg l) in
+      let result = ref "" in
+      (try
+        List.iteri (fun i st ->
+          match st with
+          | [inp; ">"; outs] ->
+              let outs_l = if outs = "-" then [] else List.map parse_dg (split_on ',' outs) in
+              if String.length inp > 2 && String.sub inp 0 2 = "X:" then begin
+                let d = parse_dg (String.sub inp 2 (String.length inp - 2)) in
+                let (s1, ds) = ex_srv_rx cf !s d in
+                s := s1;
+                if show ds <> show outs_l then begin
+                  result := Printf.sprintf "MISMATCH step %d (%s): model=%s impl=%s" i inp (show ds) (show outs_l);
+                  raise Exit end
+              end else begin
+                (* timers: explain every datagram *)
+                List.iter (fun d ->
+                  let mid = match d with ExConR (m, _) | ExNonR (m, _) -> int_of_z m | _ -> -1 in
+                  let ds =
+                    match index_of (fun p -> int_of_z p.ex_p_mid = mid) !s.ex_s_pend 0 with
+                    | Some j -> let (s1, ds) = ex_srv_fire !s (nat_of_int j) in s := s1; ds
+                    | None ->
+                      (match index_of (fun r -> int_of_z r.ex_r_mid = mid) !s.ex_s_con 0 with
+                       | Some j -> let (s1, ds) = ex_srv_timer cf.ex_cf_maxr !s (nat_of_int j) in s := s1; ds
+                       | None -> []) in
+                  if show ds <> show [d] then begin
+                    result := Printf.sprintf "MISMATCH step %d (timer): model=%s impl=%s" i (show ds) (show [d]);
+                    raise Exit end) outs_l
+              end
+          | _ -> failwith "bad server step") steps;
+        result := Printf.sprintf "ok %d" (List.length steps)
+      with Exit -> ());
+      !result
+  | _ -> failwith "exs: arguments"
+
 let () =
+  register "exs" exs;
   register "exw" exw;
   register "exc" exc;
   register "exj" exj;
